@@ -98,6 +98,7 @@ prop(
     id="C13",
     stages=[dict(name="c13", pkg="c13", test="TestC13", access=[], timeout_quick=240, timeout_thorough=2400),
             dict(name="c13composed", pkg="c13", test="TestC13Composed", access=[], timeout_quick=240, timeout_thorough=2400),
+            dict(name="c13pairs", pkg="c13", test="TestC13Pairs", access=[], timeout_quick=240, timeout_thorough=2400),
             dict(name="c14config", pkg="c14", test="TestC14Config", access=[FILE_ACCESS], timeout_quick=300, timeout_thorough=3000)],
     ok_pred={"jitter": "jitter_ok"},
     check_ok_always=True,
@@ -392,6 +393,8 @@ _ACROSS = {
     "C09": "consecutive triggers on one pool manager, an earlier one ending while its ticking goroutine is more than an interval behind",
     "C11": "pairs of profiles of one curve at two tick frequencies built one after the other",
     "C12": "two or three distributions alive at once and stepped in turn, one moving through more than 64 distinct rates",
+    "C10": "pairs of staged and of ramp profiles alive at once and queried in turn (a third of them with the same stages / rates)",
+    "C13": "stage c13pairs: two jittered functions of different percentages alive at once and evaluated in turn",
     "C15": "the same config bytes read again at other instants, later and earlier",
     "C16": "stage c16global: f1.New().WithStaticMetrics with a push gateway in the environment in child processes of their own, the process-wide instance asked for before the first execution or not",
     "C18": "stage c18many: runners on (or stopped on) their last schedule, then 16-64 new runners, every one invoked",
